@@ -237,6 +237,14 @@ static void on_death(void) {
     json_str(stderr, g_phase);
     fprintf(stderr, ",\"history\":");
     print_history(stderr, g_cur_node, g_cur_op);
+    fprintf(stderr, ",\"states_so_far\":%" PRIu64 ",\"violations_before_death\":%" PRIu64, n_states, n_viol);
+    if (n_viol > 0) {
+        fprintf(stderr, ",\"first_violation\":{\"history\":");
+        print_history(stderr, &viols[0].nd, viols[0].extra_op);
+        fprintf(stderr, ",\"what\":");
+        json_str(stderr, viols[0].what);
+        fprintf(stderr, "}");
+    }
     fprintf(stderr, "}\n");
     fflush(stderr);
 }
